@@ -52,14 +52,14 @@ def childCtxs (c : Ctx) : Except PyErr (List Ctx) := do
       let l := ch.localTag
       let n := (counts.lookup l).getD 0
       counts := (l, n + 1) :: counts.filter (·.1 != l)
-      let a ← attribToPassOn c.attrib ch.attrs
+      let a ← attribToPassOnEl c.attrib ch
       out := out ++ [{ nth := n, addr := c.addr ++ [i], node := ch, segs := c.segs ++ [(l, n)],
                        transform := t, attrib := a }]
     i := i + 1
   pure out
 
 def rootCtx (root : Node) : Except PyErr Ctx := do
-  let a ← attribToPassOn Gen.inheritableAttribDefaults root.attrs
+  let a ← attribToPassOnEl Gen.inheritableAttribDefaults root
   pure { nth := 0, addr := [], node := root, segs := [("svg", 0)], transform := Aff.id, attrib := a }
 
 /-- breadth-first contexts (the traversal is a queue; `fuel` bounds the number of nodes) -/
